@@ -15,6 +15,8 @@ One run of a property check does (DESIGN.md section 2.1):
                     the extracted Coq *specification* functions (second stage);
   5. verdict      : VIOLATION lines / KNOWN-FINDING lines, replay files, evidence.
 """
+import sys
+sys.set_int_max_str_digits(0)
 import argparse, hashlib, importlib, json, os, random, re, shutil, subprocess, sys, time, fcntl, glob
 
 VERIF = os.path.dirname(os.path.dirname(os.path.abspath(__file__)))
@@ -293,6 +295,21 @@ def split_top(s):
     return items
 
 
+def load_known_findings():
+    """known_findings.json (merged, committed) + known_findings.d/<id>.json (one file per finding,
+    so concurrent editors do not overwrite each other); entries are keyed by id, .d wins."""
+    out = {}
+    p = os.path.join(VERIF, "known_findings.json")
+    if os.path.exists(p):
+        for f in json.load(open(p)).get("findings", []): out[f["id"]] = f
+    for q in sorted(glob.glob(os.path.join(VERIF, "known_findings.d", "*.json"))):
+        try:
+            f = json.load(open(q)); out[f["id"]] = f
+        except Exception as e:
+            print("warning: unreadable known finding %s: %s" % (q, e))
+    return dict(findings=list(out.values()))
+
+
 # ---------------------------------------------------------------- main
 def main():
     ap = argparse.ArgumentParser()
@@ -353,7 +370,7 @@ def main():
         else:
             fails = mod.run(ctx)
     # fails: list of dict(kind, case, impl, model, oracle, op, size)
-    kf = json.load(open(os.path.join(VERIF, "known_findings.json")))
+    kf = load_known_findings()
     known = [k for k in kf.get("findings", []) if k.get("property") == prop and k.get("status") == "known"]
     new_fails = []; known_hit = {}
     for f in fails:
